@@ -177,8 +177,8 @@ F2_BIG = "lshape 4 2 2 tr -1 -1 -1"
 def build_cases(cx):
     rng = random.Random(cx.seed * 7919 + 16)
     cases = []   # (id, line, kind, info)
-    nh, nm, nk = cx.pick((60, 8, 10), (4000, 300, 200))
-    nmb, ncv = cx.pick((8, 30), (150, 1500))
+    nh, nm, nk = cx.pick((60, 8, 10), (3000, 200, 150))
+    nmb, ncv = cx.pick((8, 30), (100, 1000))
 
     def add(line, kind, info=None):
         cid = str(len(cases))
@@ -202,6 +202,11 @@ def build_cases(cx):
     add("MINK @ diff %s | cube 0.2 0.2 0.2 1" % TWO, "mink-diff-multibody", {"aconvex": False, "bconvex": True})
     add("CONV @ %s" % TWO, "conv-multibody")
     add("CONV @ torus 2 0.5 8 6", "conv-genus")
+    # finding (fix: hooks/fix_C16_1.patch): coplanar cloud with coordinates ~2^33: the planar fallback offsets its auxiliary
+    # point by the UNNORMALIZED normal (length ~ L^2), and the result has triangles with a repeated vertex index
+    cfile2 = os.path.join(vp.ROOT, "corpus/C16/hull_flat_scale30_9.txt")
+    if os.path.exists(cfile2):
+        add(open(cfile2).read().strip(), "hull-corpus-flat-scale", {"corpus": "flat-scale"})
     add("HULLP @ 4 0 0 0 1 0 0 0 1 0 1 1 0", "hull-coplanar")
     add("HULLP @ 5 0 0 0 0 0 1 0.5 0 0 0.5 0 0 0.5 0 1", "hull-coplanar")
     add("HULLP @ 0", "hull-none")
@@ -246,6 +251,9 @@ def default_eps():
 
 
 def run_driver_parallel(drv, args, out_impl, nproc):
+    """split the harness output per case into small batches and let a pool of workers pull them (dynamic load balance:
+    a few Minkowski cases cost 100x a hull case)"""
+    from concurrent.futures import ThreadPoolExecutor
     blocks, cur = [], []
     for l in out_impl.splitlines():
         cur.append(l)
@@ -253,22 +261,23 @@ def run_driver_parallel(drv, args, out_impl, nproc):
             blocks.append((sum(len(x) for x in cur), "\n".join(cur) + "\n"))
             cur = []
     blocks.sort(key=lambda b: -b[0])
-    k = max(1, min(nproc, len(blocks)))
-    chunks, load = [[] for _ in range(k)], [0] * k
+    batches, cb, csz = [], [], 0
     for sz, b in blocks:
-        i = load.index(min(load))
-        chunks[i].append(b)
-        load[i] += sz * sz
-    procs = [subprocess.Popen([drv] + args, stdin=subprocess.PIPE, stdout=subprocess.PIPE, stderr=subprocess.PIPE, text=True) for _ in chunks]
-    outs = [None] * k
+        cb.append(b); csz += sz
+        if len(cb) >= 8 or csz > 40000:
+            batches.append("".join(cb)); cb, csz = [], 0
+    if cb:
+        batches.append("".join(cb))
+    bad = []
 
-    def work(i):
-        outs[i] = procs[i].communicate("".join(chunks[i]), timeout=3000)
-    ths = [threading.Thread(target=work, args=(i,)) for i in range(k)]
-    [t.start() for t in ths]
-    [t.join() for t in ths]
-    bad = [(p.returncode, o[1][-300:]) for p, o in zip(procs, outs) if p.returncode != 0]
-    return "".join(o[0] for o in outs if o), bad
+    def work(text):
+        p = subprocess.run([drv] + list(args), input=text, stdout=subprocess.PIPE, stderr=subprocess.PIPE, text=True, timeout=3000)
+        if p.returncode != 0:
+            bad.append((p.returncode, p.stderr[-300:]))
+        return p.stdout
+    with ThreadPoolExecutor(max_workers=max(1, nproc)) as ex:
+        outs = list(ex.map(work, batches))
+    return "".join(outs), bad
 
 
 HULL_KEYS = {1: "hull-not-manifold", 2: "hull-vertex-not-input", 3: "hull-point-outside", 4: "hull-empty-but-input-spans-volume",
@@ -337,7 +346,10 @@ def run(cx):
             if status != 0:
                 viol("hull-status", cid, "Hull returned status %d" % status, l)
             elif code != 0:
-                viol("hull-quickhull-loses-points" if (code == 3 and c[3].get("corpus") == "quickhull") else HULL_KEYS.get(code, "hull-rejected"), cid, "hull_check rejects the result (code %d: %s) for %d input points; mesh %d verts %d tris" % (
+                m_sc = re.search(r"\*2\^(-?\d+)", c[2])
+                big_flat = flat == 1 and code == 1 and (c[3].get("corpus") == "flat-scale" or (m_sc and int(m_sc.group(1)) >= 20))
+                viol("hull-quickhull-loses-points" if (code == 3 and c[3].get("corpus") == "quickhull")
+                     else "hull-flat-cloud-large-scale-degenerate-triangles" if big_flat else HULL_KEYS.get(code, "hull-rejected"), cid, "hull_check rejects the result (code %d: %s) for %d input points; mesh %d verts %d tris" % (
                     code, HULL_KEYS.get(code), npts, nv, nt), l)
             elif flat and nt > 0 and simp_empty != 1:
                 # (the mesh is exactly flat by hull_check: its vertices are input points; Volume() may carry rounding noise)
